@@ -1,8 +1,401 @@
-use crate::case::{Case, Outcome};
-use crate::keys::SimKey;
+//! C16 (storage-facing part): F-forge between two opens. Decoders must be total on arbitrary stored
+//! bytes (Ok or Err, never a panic), canonical encodings of arbitrary entries must load exactly and
+//! be written back identically, and decoding must not allocate more than its input.
 
-pub fn run_forge<K: SimKey>(_case: &Case, _fseed: u64, _budget: u32) -> Outcome {
+use std::collections::BTreeSet;
+use std::panic::{catch_unwind, AssertUnwindSafe};
+use std::sync::Arc;
+
+use crate::case::{Case, Outcome};
+use crate::decode::{self, LogOp};
+use crate::exec::{fail, panic_msg, Failure, World};
+use crate::interpose;
+use crate::keys::SimKey;
+use crate::modes::traced_run;
+use crate::monitors::parse_log;
+use crate::rng::{mix, Rng};
+use crate::seqrun::{finish_sim, fresh_dir, remove_dir};
+use crate::sim::{Disk, FileNode, Sim};
+
+fn set_file(d: &mut Disk, rel: &str, bytes: Vec<u8>) {
+    let b = Arc::new(bytes);
+    match d.files.get(rel) {
+        Some(&i) => {
+            d.inodes[i].cache = b.clone();
+            d.inodes[i].durable = b;
+        }
+        None => {
+            d.inodes.push(FileNode { cache: b.clone(), durable: b, dirty: false, ever_cas: false });
+            let i = d.inodes.len() - 1;
+            d.files.insert(rel.to_string(), i);
+        }
+    }
+}
+
+enum Expect {
+    /// must load, and iter() must show exactly these entries (as a set)
+    Exactly(Vec<(Vec<u8>, [u8; 32], u64)>),
+    /// Ok or Err, no panic
+    Total,
+}
+
+struct Verdict {
+    opened: bool,
+}
+
+/// open `img` with the real code; never panic; optionally exact content; bounded allocation
+fn judge<K: SimKey>(case: &Case, img: &Disk, expect: &Expect, desc: &str, alloc_input: Option<usize>, out: &mut Outcome) -> Result<Verdict, Failure> {
+    let wl = &case.workload;
+    out.counters.forged_opens += 1;
+    let base = fresh_dir();
+    img.materialise(&base, &BTreeSet::new()).expect("materialise");
+    let mut sim = Sim::new(&base, 9);
+    sim.disk = Disk::from_dir(&base).expect("image");
+    interpose::install(sim);
+    let mut w = World::<K>::new(&base, wl);
+    w.cfg.scan = false;
+    w.cfg.fail_on_integrity = false;
+    w.cfg.async_mode = false;
+    let cfg = w.cfg.clone();
+    crate::alloc::window_start();
+    let r = catch_unwind(AssertUnwindSafe(|| w.open_raw(&cfg)));
+    let max_alloc = crate::alloc::window_end();
+    let mut res: Result<Verdict, Failure> = Ok(Verdict { opened: false });
+    match r {
+        Err(p) => res = Err(fail(&["C16"], "panic", 0, format!("{desc}: open panicked: {}", panic_msg(p)))),
+        Ok(Err(e)) => {
+            if let Expect::Exactly(_) = expect {
+                res = Err(fail(&["C16"], "canonical-rejected", 0, format!("{desc}: a canonical encoding was rejected: {e} ({e:?})")));
+            }
+        }
+        Ok(Ok(())) => {
+            res = Ok(Verdict { opened: true });
+            let items = catch_unwind(AssertUnwindSafe(|| w.observe_items()));
+            match (items, expect) {
+                (Err(p), _) => res = Err(fail(&["C16"], "panic", 0, format!("{desc}: iter() after open panicked: {}", panic_msg(p)))),
+                (Ok(Ok(items)), Expect::Exactly(want)) => {
+                    let mut a = items.clone();
+                    a.sort();
+                    let mut b = want.clone();
+                    b.sort();
+                    if a != b {
+                        res = Err(fail(&["C16"], "round-trip", 0, format!("{desc}: decoded {} entries differ from the {} forged ones, e.g. got {:?}", a.len(), b.len(), crate::exec::brief_items(&a).iter().take(3).collect::<Vec<_>>())));
+                    } else {
+                        // write it back: an explicit checkpoint must reproduce the same entries and version
+                        let before = interpose::with_sim(|s| s.disk.bytes("db/index").map(|b| b.to_vec()));
+                        let cas = w.cas.as_ref().unwrap();
+                        let c = catch_unwind(AssertUnwindSafe(|| interpose::enter(|| cas.checkpoint())));
+                        match c {
+                            Err(p) => res = Err(fail(&["C16"], "panic", 0, format!("{desc}: checkpoint panicked: {}", panic_msg(p)))),
+                            Ok(Err(e)) => res = Err(fail(&["C16"], "re-encode-failed", 0, format!("{desc}: checkpoint failed: {e}"))),
+                            Ok(Ok(())) => {
+                                let after = interpose::with_sim(|s| s.disk.bytes("db/index").map(|b| b.to_vec()));
+                                let same = match (&before, &after) {
+                                    (Some(x), Some(y)) => match (decode::decode_snapshot(x), decode::decode_snapshot(y)) {
+                                        (Ok(sx), Ok(sy)) => {
+                                            let mut ex = sx.entries.clone();
+                                            ex.sort();
+                                            let mut ey = sy.entries.clone();
+                                            ey.sort();
+                                            sx.version == sy.version && ex == ey && x.len() == y.len()
+                                        }
+                                        _ => false,
+                                    },
+                                    _ => false,
+                                };
+                                if !same {
+                                    res = Err(fail(&["C16"], "re-encode-differs", 0, format!("{desc}: snapshot written back by checkpoint does not decode to the same version/entries/length")));
+                                }
+                            }
+                        }
+                    }
+                }
+                (Ok(Err(e)), _) => res = Err(fail(&["C16"], "round-trip", 0, format!("{desc}: {e}"))),
+                _ => {}
+            }
+        }
+    }
+    if res.is_ok() {
+        if let Some(input) = alloc_input {
+            let bound = 2 * input + (64 << 10);
+            if max_alloc > bound {
+                res = Err(fail(&["C16"], "allocation-bound", 0, format!("{desc}: a single allocation of {max_alloc} bytes while decoding {input} bytes of input")));
+            }
+        }
+    }
+    w.close();
+    let _ = interpose::uninstall();
+    remove_dir(&base);
+    res
+}
+
+fn draw_entries<K: SimKey>(rng: &mut Rng, extreme: bool) -> Vec<(Vec<u8>, [u8; 32], u64)> {
+    let n = match rng.below(5) {
+        0 => 0,
+        1 => 1,
+        2 => 200,
+        _ => rng.below(30) as usize,
+    };
+    let keys = crate::keys::gen_keys::<K>(rng, n, false);
+    // extreme sizes only in snapshots that are not mutated afterwards: a flipped size bit next to a
+    // 2^63 entry makes the *statistics* sum pass 2^64, which is arithmetic outside the decoders
+    let big = if extreme { *rng.pick(&[1u64 << 63, u64::MAX]) } else { *rng.pick(&[(1u64 << 32) - 1, 1 << 32, 1 << 40]) };
+    let mut v = Vec::new();
+    let big_at = if keys.is_empty() { 0 } else { rng.below(keys.len() as u64) as usize };
+    for (i, k) in keys.iter().enumerate() {
+        let mut h = [0u8; 32];
+        h.copy_from_slice(&rng.bytes(32));
+        if rng.chance(1, 8) {
+            h = [*rng.pick(&[0u8, 0xff]); 32];
+        }
+        // sizes: one boundary value per snapshot; the rest 0 when it is 2^64-1, so that the sum of
+        // sizes (statistics, not decoding) stays below 2^64
+        let size = if i == big_at { big } else if big == u64::MAX { 0 } else { *rng.pick(&[0u64, 1, 7, 1 << 20]) };
+        v.push((k.kb(), h, size));
+    }
+    // distinct hashes get distinct sizes trivially; equal hashes must agree on size (content addressing)
+    let mut seen: std::collections::BTreeMap<[u8; 32], u64> = Default::default();
+    for e in v.iter_mut() {
+        let s = *seen.entry(e.1).or_insert(e.2);
+        e.2 = s;
+    }
+    v
+}
+
+pub fn run_forge<K: SimKey>(case: &Case, fseed: u64, budget: u32) -> Outcome {
     let mut out = Outcome::default();
-    out.harness_error = Some("mode not implemented".into());
+    // a real history provides real files to forge from (settings, snapshot, segments)
+    let mut t = traced_run::<K>(case, &mut out, false);
+    if let Some(f) = t.failure.take() {
+        out.violation = Some(f);
+    }
+    let mut sim = std::mem::replace(&mut t.sim, Sim::new(std::path::Path::new("/nonexistent"), 0));
+    finish_sim(&mut out, &mut sim, &t.base, true);
+    remove_dir(&t.base);
+    if out.violation.is_some() || out.harness_error.is_some() {
+        return out;
+    }
+    let real = sim.disk.clone();
+    let wl = &case.workload;
+    let mut rng = Rng::new(fseed);
+    let mut left = budget as i64;
+    let mut fail_with = |f: Failure, out: &mut Outcome| {
+        let mut f = f;
+        f.op_index = wl.ops.len().saturating_sub(1);
+        out.violation = Some(f);
+    };
+
+    // an empty database skeleton (settings only) for forged snapshots
+    let mut skeleton = Disk::default();
+    for d in ["db", "db/cas", "db/staging"] {
+        skeleton.dirs.insert(d.to_string());
+    }
+    if let Some(b) = real.bytes("db/db_settings.json") {
+        set_file(&mut skeleton, "db/db_settings.json", b.to_vec());
+    }
+
+    // ---- (i) canonical snapshots of arbitrary entries -----------------------------------------
+    for round in 0..3 {
+        if left <= 0 {
+            break;
+        }
+        left -= 1;
+        let extreme = round == 0;
+        let entries = draw_entries::<K>(&mut rng, extreme);
+        let version = *rng.pick(&[1u64, 2, wl.cfg.n, wl.cfg.n + 1, 1000, 1 << 40]);
+        let bytes = decode::encode_snapshot(version, &entries);
+        let mut img = skeleton.clone();
+        let len = bytes.len();
+        set_file(&mut img, "db/index", bytes.clone());
+        let desc = format!("canonical snapshot #{round}: version {version}, {} entries, {len} bytes", entries.len());
+        if let Err(f) = judge::<K>(case, &img, &Expect::Exactly(entries.clone()), &desc, Some(len), &mut out) {
+            fail_with(f, &mut out);
+            return out;
+        }
+        out.fingerprints.push(mix(entries.len() as u64, version));
+        // ---- (ii) mutations of this valid encoding -------------------------------------------
+        if extreme {
+            continue;
+        }
+        let mut muts: Vec<(String, Vec<u8>)> = Vec::new();
+        let step = (len / 40).max(1);
+        for cut in (0..len).step_by(step) {
+            muts.push((format!("truncated to {cut} of {len} bytes"), bytes[..cut].to_vec()));
+        }
+        for &n in &[0u32, 1, entries.len() as u32 + 1, entries.len().saturating_sub(1) as u32, 1 << 31, u32::MAX] {
+            let mut b = bytes.clone();
+            if b.len() >= 12 {
+                b[8..12].copy_from_slice(&n.to_le_bytes());
+                muts.push((format!("entry count replaced by {n}"), b));
+            }
+        }
+        if !entries.is_empty() && bytes.len() >= 16 {
+            for &kl in &[0u32, 1, len as u32 - 1, len as u32, len as u32 + 1, 1 << 31, u32::MAX] {
+                let mut b = bytes.clone();
+                b[12..16].copy_from_slice(&kl.to_le_bytes());
+                muts.push((format!("first key length replaced by {kl}"), b));
+            }
+        }
+        for _ in 0..10 {
+            if bytes.is_empty() {
+                break;
+            }
+            let mut b = bytes.clone();
+            let pos = rng.below(b.len() as u64) as usize;
+            b[pos] ^= 1 << rng.below(8);
+            muts.push((format!("bit flipped at byte {pos}"), b));
+        }
+        {
+            let mut b = bytes.clone();
+            let extra = 1 + rng.below(9) as usize;
+            b.extend_from_slice(&rng.bytes(extra));
+            muts.push(("trailing garbage".into(), b));
+        }
+        // a key that is invalid for K (wrong width / bad UTF-8)
+        {
+            let bad_key: Vec<u8> = vec![0xff, 0xfe, 0xfd];
+            let e2 = vec![(bad_key, [7u8; 32], 1u64)];
+            muts.push(("one entry whose key bytes may be invalid for the key type".into(), decode::encode_snapshot(version, &e2)));
+        }
+        muts.push(("empty file".into(), Vec::new()));
+        for (what, b) in muts {
+            if left <= 0 {
+                break;
+            }
+            left -= 1;
+            let mut img = skeleton.clone();
+            let l = b.len();
+            set_file(&mut img, "db/index", b);
+            if let Err(f) = judge::<K>(case, &img, &Expect::Total, &format!("mutated snapshot ({what})"), Some(l.max(len)), &mut out) {
+                fail_with(f, &mut out);
+                return out;
+            }
+        }
+    }
+
+    // ---- (iii) forged log records on the real image ---------------------------------------------
+    let Ok(parsed) = parse_log(&real) else { return out };
+    let n = wl.cfg.n;
+    let next_version = parsed.max_version + 1;
+    let seg_of = |v: u64| (v - 1) / n;
+    let keys = crate::keys::keys_from_hex::<K>(&wl.keys_hex);
+    let kb = |i: usize| keys[i % keys.len()].kb();
+    let mut payloads: Vec<(String, Vec<u8>)> = Vec::new();
+    payloads.push(("unknown tag 2".into(), vec![2, 0, 0, 0, 0]));
+    payloads.push(("unknown tag 255".into(), vec![255]));
+    payloads.push(("put with key length beyond the payload".into(), {
+        let mut p = vec![0u8];
+        p.extend_from_slice(&1000u32.to_le_bytes());
+        p.extend_from_slice(&kb(0));
+        p
+    }));
+    payloads.push(("put cut inside the hash".into(), {
+        let mut p = decode::encode_op(&LogOp::Put { key: kb(0), hash: [9; 32], size: 3 });
+        p.truncate(p.len() - 20);
+        p
+    }));
+    payloads.push(("put with trailing bytes".into(), {
+        let mut p = decode::encode_op(&LogOp::Put { key: kb(0), hash: [9; 32], size: 3 });
+        p.extend_from_slice(&[1, 2, 3]);
+        p
+    }));
+    payloads.push(("put with key bytes invalid for the key type".into(), decode::encode_op(&LogOp::Put { key: vec![0xff, 0xfe, 0xfd], hash: [9; 32], size: 3 })));
+    payloads.push(("remove with zero keys".into(), decode::encode_op(&LogOp::Remove { keys: vec![] })));
+    for &cnt in &[1u32 << 31, u32::MAX, 1 << 24, 3] {
+        payloads.push((format!("remove announcing {cnt} keys with one present"), {
+            let mut p = vec![1u8];
+            p.extend_from_slice(&cnt.to_le_bytes());
+            p.extend_from_slice(&(kb(1).len() as u32).to_le_bytes());
+            p.extend_from_slice(&kb(1));
+            p
+        }));
+    }
+    payloads.push(("remove with a key length of 2^32-1".into(), {
+        let mut p = vec![1u8];
+        p.extend_from_slice(&1u32.to_le_bytes());
+        p.extend_from_slice(&u32::MAX.to_le_bytes());
+        p
+    }));
+    payloads.push(("remove of a key invalid for the key type".into(), decode::encode_op(&LogOp::Remove { keys: vec![vec![0xff, 0xfe, 0xfd]] })));
+    payloads.push(("well-formed put of an unknown blob".into(), decode::encode_op(&LogOp::Put { key: kb(2), hash: [0xab; 32], size: 1 << 40 })));
+    for (what, payload) in payloads {
+        if left <= 0 {
+            break;
+        }
+        left -= 1;
+        let v = next_version;
+        let seg = format!("db/{}_index.wal", seg_of(v));
+        let mut img = real.clone();
+        let mut b = img.bytes(&seg).map(|x| x.to_vec()).unwrap_or_default();
+        // append after the last complete record (drop a trailing end marker if present)
+        let segd = decode::decode_segment(&b);
+        let end = segd.records.last().map_or(0, |r| r.end);
+        b.truncate(end);
+        let input = payload.len();
+        b.extend_from_slice(&decode::encode_record(v, &payload));
+        set_file(&mut img, &seg, b);
+        if let Err(f) = judge::<K>(case, &img, &Expect::Total, &format!("forged record v{v} with a valid checksum: {what}"), Some(input + real.bytes("db/index").map_or(0, |x| x.len()) + 4096), &mut out) {
+            fail_with(f, &mut out);
+            return out;
+        }
+    }
+    // frame-level forgeries: version and length fields, end marker in the middle (no allocation bound:
+    // the length field itself is forged)
+    let segs: Vec<(String, Vec<u8>)> = real.list("db/").into_iter().filter(|(p, _)| p.ends_with("_index.wal") && p.matches('/').count() == 1).map(|(p, n)| (p.clone(), (*n.cache).clone())).collect();
+    for (path, bytes) in segs {
+        let segd = decode::decode_segment(&bytes);
+        for r in &segd.records {
+            let mut frames: Vec<(String, Vec<u8>)> = Vec::new();
+            for &ver in &[0u64, 1, r.version + 1, r.version.saturating_sub(1), u64::MAX, (seg_of(r.version) + 2) * n] {
+                let mut b = bytes.clone();
+                b[r.start..r.start + 8].copy_from_slice(&ver.to_le_bytes());
+                frames.push((format!("version of record v{} replaced by {ver}", r.version), b));
+            }
+            for &l in &[0u32, 1, (r.end - r.start - 44) as u32 + 1, (r.end - r.start - 44) as u32 - 1, 1 << 20, 1 << 31, u32::MAX] {
+                let mut b = bytes.clone();
+                b[r.start + 40..r.start + 44].copy_from_slice(&l.to_le_bytes());
+                frames.push((format!("length of record v{} replaced by {l}", r.version), b));
+            }
+            {
+                let mut b = bytes.clone();
+                for x in &mut b[r.start..r.start + 44] {
+                    *x = 0;
+                }
+                frames.push((format!("header of record v{} zeroed (end marker in the middle)", r.version), b));
+            }
+            for (what, b) in frames {
+                if left <= 0 {
+                    break;
+                }
+                left -= 1;
+                let mut img = real.clone();
+                set_file(&mut img, &path, b);
+                if let Err(f) = judge::<K>(case, &img, &Expect::Total, &format!("forged frame in {path}: {what}"), None, &mut out) {
+                    fail_with(f, &mut out);
+                    return out;
+                }
+            }
+        }
+    }
+    // settings file forgeries
+    for (what, b) in [
+        ("settings: not JSON", b"{".to_vec()),
+        ("settings: empty", Vec::new()),
+        ("settings: num_ops_per_wal = 0", br#"{"version":4,"dir_tree_is_pre_created":false,"num_ops_per_wal":0}"#.to_vec()),
+        ("settings: negative version", br#"{"version":-1,"dir_tree_is_pre_created":false,"num_ops_per_wal":3}"#.to_vec()),
+        ("settings: huge num_ops_per_wal", br#"{"version":4,"dir_tree_is_pre_created":false,"num_ops_per_wal":18446744073709551616}"#.to_vec()),
+        ("settings: missing field", br#"{"version":4}"#.to_vec()),
+    ] {
+        if left <= 0 {
+            break;
+        }
+        left -= 1;
+        let mut img = real.clone();
+        set_file(&mut img, "db/db_settings.json", b);
+        if let Err(f) = judge::<K>(case, &img, &Expect::Total, what, None, &mut out) {
+            fail_with(f, &mut out);
+            return out;
+        }
+    }
     out
 }
